@@ -1,5 +1,6 @@
 SPECIFICATION TrSpec
 CONSTANT Depth = 1000
+CONSTANT DebugOn = TRUE
 INVARIANT TrEmit
 INVARIANT TrInvariant
 CHECK_DEADLOCK FALSE
